@@ -12,6 +12,7 @@ else:
 from astropy import units as u
 from astropy.stats import sigma_clip
 
+import copy
 import time
 
 from setigen import unit_utils
@@ -82,6 +83,9 @@ class DataStream(object):
         self.noise_sources = []
         self.signal_sources = []
         
+        # One generator per noise source (see add_noise)
+        self.noise_rngs = []
+        
     def _update_t(self, num_samples):
         """
         Set array of times for voltage calculation, and reset voltage array.
@@ -118,12 +122,18 @@ class DataStream(object):
         """
         start_obs = self.start_obs
         t_start = self.t_start
+        # The probe samples must not consume the stream's generators: draw them
+        # from copies, so that the stream afterwards continues as if uninterrupted
+        rngs = (self.rng, self.noise_rngs)
+        self.rng, self.noise_rngs = copy.deepcopy(rngs)
         
-        v = self.get_samples(num_samples=stats_calc_num_samples)
+        try:
+            v = self.get_samples(num_samples=stats_calc_num_samples)
+        finally:
+            self.rng, self.noise_rngs = rngs
+            self.start_obs = start_obs
+            self.t_start = t_start
         _, self.noise_std = estimate_stats(v, stats_calc_num_samples=stats_calc_num_samples)
-        
-        self.start_obs = start_obs
-        self.t_start = t_start
         
     def get_total_noise_std(self):
         """
@@ -155,7 +165,16 @@ class DataStream(object):
         v_std : float
             Noise standard deviation
         """
-        noise_func = lambda ts: v_mean + v_std * self.rng.standard_normal(size=len(ts))
+        # Each noise source draws from a generator of its own: a generator shared 
+        # by several sources would be consumed in an order that depends on how the
+        # sample requests are chunked. The first source keeps the stream's generator;
+        # further sources get generators seeded from it.
+        k = len(self.noise_rngs)
+        if k == 0:
+            self.noise_rngs.append(self.rng)
+        else:
+            self.noise_rngs.append(xp.random.default_rng(int(self.rng.integers(2**31))))
+        noise_func = lambda ts: v_mean + v_std * self.noise_rngs[k].standard_normal(size=len(ts))
         
         # Variances add, not standard deviations
         self.noise_std = xp.sqrt(self.noise_std**2 + v_std**2)
